@@ -375,13 +375,26 @@ def listener_case(ev, act, text):
 
 def odd_exceptions():
     from hotxlfp.formulas import error
-    return [ValueError([1, 2]), KeyError({'a': 1}), TypeError({1, 2}), RuntimeError(), error.XLError(['#N/A']), error.XLError(), OSError(2, 'x')]
+
+    class Speechless(Exception):
+        """ an exception whose own __str__ fails """
+        def __str__(self):
+            raise RuntimeError('no text for you')
+
+    class SpeechlessError(error.XLError):
+        def __str__(self):
+            raise RuntimeError('no text for you')
+    return [ValueError([1, 2]), KeyError({'a': 1}), TypeError({1, 2}), RuntimeError(), error.XLError(['#N/A']), error.XLError(), OSError(2, 'x'),
+            Speechless(), SpeechlessError('x')]
 
 
 def raising_case(i, text):
     exc = odd_exceptions()[i]
     q = new_parser()
     q.set_function('F', lambda *a: _throw(exc))
+    q.set_function('G', lambda *a: exc)                          # ... handed over as a value
+    q.on('callCellValue', lambda cell, setter: _throw(exc))      # ... raised by a listener
+    q.set_variable('oddvalue', exc)
     try:
         r = run_budgeted(lambda: q.parse(text))
         return well_formed(r)
@@ -642,7 +655,7 @@ def check_totality(rng, tier, names=None):
         if bad and len(fails) < 5:
             fails.append({'formula': text, 'sheet_case': si, 'host': 'cells resolved by evaluating %r on the same parser' % (sheet,), 'detail': bad})
     for i in range(len(odd_exceptions())):
-        for text in ('F()', 'F(1)+1', 'IFERROR(F(),7)', 'SUM(F(),1)'):
+        for text in ('F()', 'F(1)+1', 'IFERROR(F(),7)', 'SUM(F(),1)', 'A1+1', 'SUM(A1,2)', 'G()', 'oddvalue', 'IFERROR(A1,7)'):
             cases += 1
             bad = raising_case(i, text)
             if bad and len(fails) < 5:
